@@ -6,6 +6,12 @@ import glob
 props = {os.path.basename(p)[:-5]: json.load(open(p)) for p in glob.glob(os.path.join(ROOT, 'props', 'C*.json'))}
 allids = [json.loads(l)['id'] for l in open(os.path.join(ROOT, 'properties.jsonl'))]
 na = json.load(open(os.path.join(ROOT, 'not_applicable.json')))
+def hook_commits():
+    import subprocess
+    out = subprocess.run(['git', '-C', '/repo', 'log', '--format=%H %s'], capture_output=True, text=True).stdout
+    return [l.split()[0] for l in out.split('\n') if l[41:].startswith('verif hook:')][::-1]
+
+
 checks = []
 for pid in allids:
     if pid not in props:
@@ -29,7 +35,7 @@ m = {
         'guard': 'verif',
         'enable': 'go build -tags verif (the harness module /verif/harness replaces github.com/lyraproj/pcore with /repo)',
         'baseline_off_cmd': "cd /repo && GOFLAGS=-mod=mod go test -vet=off -count=1 ./...",
-        'source_commits': json.load(open(os.path.join(ROOT, 'hook_commits.json'))),
+        'source_commits': hook_commits(),
         'add_only': True,
     },
     'engines': [{
